@@ -149,6 +149,20 @@ def check_hier(rng, X, w, desc):
     h = HierarchicalGaussianMixture(n_init=1, max_iterations=max_it, min_points=minp, threshold_modifier=thr,
                                     covariance_type=ct, normalize=norm)
     cfg = dict(cap=None if cap is None else int(cap), min_points=minp, normalize=norm, thr=thr, ct=ct)
+    # a model object that has been fitted before (the sampler refits one object every iteration), possibly on data of
+    # another dimension, must behave like a fresh one
+    reuse = bool(rng.random() < 0.5)
+    if reuse:
+        d0 = int(rng.choice([1, 1, 2, 3, d, max(1, d - 1)]))
+        n0 = int(rng.integers(40, 160))
+        X0 = np.where(rng.random((n0, 1)) < 0.5, -4.0, 4.0) + rng.standard_normal((n0, d0)) * 10 ** rng.uniform(-1, 1)
+        cfg["reused_after_d"] = d0
+        try:
+            with np.errstate(all="ignore"):
+                h.fit(X0)
+        except Exception:
+            pass
+    st0 = np.random.get_state()
     try:
         with np.errstate(all="ignore"):
             h.fit(X, None if w is None else w.copy())
@@ -156,6 +170,20 @@ def check_hier(rng, X, w, desc):
         return [(f"hier-exception-{type(e).__name__}", f"HierarchicalGaussianMixture.fit raised {type(e).__name__}: {e} on {desc} {cfg}")], cfg, 0
     K = int(h.n_clusters_)
     lab = np.asarray(h.labels_)
+    if reuse:
+        st1 = np.random.get_state()
+        np.random.set_state(st0)
+        h2 = HierarchicalGaussianMixture(n_init=1, max_iterations=max_it, min_points=minp, threshold_modifier=thr,
+                                         covariance_type=ct, normalize=norm)
+        try:
+            with np.errstate(all="ignore"):
+                h2.fit(X, None if w is None else w.copy())
+            if int(h2.n_clusters_) != K or not np.array_equal(np.asarray(h2.labels_), lab):
+                bad.append(("hier-fit-depends-on-earlier-fit", f"a model fitted before on {d0}-dimensional data finds K={K} (sizes {np.bincount(lab).tolist()}); "
+                            f"a fresh model with the same parameters finds K={int(h2.n_clusters_)} (sizes {np.bincount(np.asarray(h2.labels_)).tolist()}) on {desc}"))
+        except Exception as e:
+            bad.append(("hier-fit-depends-on-earlier-fit", f"fresh model raised {type(e).__name__}: {e} where the re-used one did not"))
+        np.random.set_state(st1)
     if lab.shape != (n,) or lab.min() < 0 or lab.max() >= K:
         bad.append(("hier-labels", f"training labels not in [0,{K}) or wrong length"))
         return bad, cfg, K
@@ -265,13 +293,18 @@ def run():
             ck.event("HierarchicalGaussianMixture fit checked")
             if rep:
                 ck.event("weight-replication pair compared")
+            if (desc.get("hier") or {}).get("reused_after_d") is not None:
+                ck.event("hierarchical fits on a previously used model object compared with a fresh object")
+                if desc["hier"]["reused_after_d"] != desc["d"]:
+                    ck.event("... of which the earlier fit had another dimension")
             ks[KK] = ks.get(KK, 0) + 1
             for key, what in bad:
                 ck.violation(key, what, dict(stream=["data", idx], case=desc))
     ck.tables["clusters_found_histogram"] = {str(k): v for k, v in sorted(ks.items())}
     if sum(v for k, v in ks.items() if k > 1) == 0:
         ck.inconc("no hierarchical fit produced more than one cluster: split/min_points/cap clauses unobserved")
-    ck.require_events("GaussianMixture fit checked", "HierarchicalGaussianMixture fit checked", "weight-replication pair compared")
+    ck.require_events("GaussianMixture fit checked", "HierarchicalGaussianMixture fit checked", "weight-replication pair compared",
+                      "hierarchical fits on a previously used model object compared with a fresh object", "... of which the earlier fit had another dimension")
     return ck.finish(
         rule="data sets from VERIF_SEED: d 1..6, n 2d..1000, separated/overlapping/single/duplicated/near-degenerate/unit-cube/offset "
              "clusters, weights none/Dirichlet/highly skewed/integer; GaussianMixture full and diag with K 1..3; hierarchical model with caps "
